@@ -389,8 +389,12 @@ def _problem_model(ctx: Ctx, cls, init: FunctionInfo, ev: FunctionInfo, minimize
 
     def sym_result(fv, args):
         if fv.tag == "FF":
-            return SVal(1, "f") if n_comp is None else [SVal(1, f"f{i + 1}") for i in range(n_comp)]
+            r_ = SVal(1, "f") if n_comp is None else [SVal(1, f"f{i + 1}") for i in range(n_comp)]
+            if isinstance(r_, list):
+                _problem_model.returned.append(r_)      # the very object the user's function handed out (it may reuse / rewrite it later)
+            return r_
         return Sym(fv.tag + "()")
+    _problem_model.returned = []
 
     it = Interp(prog, cls, lambda *_: None, None, record_calls=("Fitness",), max_depth=5, max_traces=64)
     it.sym_result = sym_result
@@ -414,7 +418,7 @@ def _problem_model(ctx: Ctx, cls, init: FunctionInfo, ev: FunctionInfo, minimize
     return it.run(ev, env, prelude=(init, env0))
 
 
-def rule_r5(ctx: Ctx) -> None:
+def rule_r5(ctx: Ctx, alias_rid: Optional[str] = None) -> None:
     """Model check of every Problem class: __init__ and evaluate are interpreted with a symbolic fitness function.  On every
     trace the fitness function is invoked exactly once (R5); the Fitness built has the raw components and, with the default
     aggregate, 'sum of (-f if minimised else f)' - single: -f / +f (R3)."""
@@ -440,7 +444,7 @@ def rule_r5(ctx: Ctx) -> None:
                 scenarios.append((True, 2, {p_: Sym("USER:" + p_) for p_ in optional}))
         else:
             scenarios = [(True, None, {}), (False, None, {})]
-        bad_count = bad_sign = bad_comp = None
+        bad_count = bad_sign = bad_comp = bad_alias = None
         undecided = []
         ntr = 0
         for mn, k, given in scenarios:
@@ -468,6 +472,10 @@ def rule_r5(ctx: Ctx) -> None:
                 fe = fits[0]
                 agg = fe.args[0] if fe.args else fe.kwargs.get("maximizing_aggregate", UNKNOWN)
                 comps = fe.args[1] if len(fe.args) > 1 else fe.kwargs.get("fitness_components", UNKNOWN)
+                if isinstance(comps, list) and any(comps is r_ for r_ in _problem_model.returned) and bad_alias is None:
+                    bad_alias = ("the Fitness keeps the very list object the fitness function returned: a fitness function that reuses its result "
+                                 "buffer (one score per test case, filled in place) rewrites the recorded fitness of every individual evaluated before - "
+                                 "the recorded components are no longer what the function returned for that individual's program", scen)
                 want_comps = [SVal(1, "f")] if k is None else [SVal(1, f"f{i + 1}") for i in range(k)]
                 if comps != want_comps and bad_comp is None:
                     if isinstance(comps, list) and all(isinstance(x, SVal) for x in comps):
@@ -492,6 +500,13 @@ def rule_r5(ctx: Ctx) -> None:
                         undecided.append(f"aggregate not followed ({agg!r})")
         n += ntr
         und = "; ".join(sorted(set(undecided))[:3])
+        if alias_rid is not None:
+            # the same model used by another property (C09: the cached fitness of an input individual cannot be rewritten from outside)
+            if multi:
+                ctx.ob(alias_rid, ev, ev.node, f"{cls.name}: the recorded components are a list of their own, not the object the fitness function returned",
+                       False if bad_alias else (None if und else True), bad_alias[0] if bad_alias else und,
+                       witness=bad_alias[1] if bad_alias else {"traces": ntr})
+            continue
         ctx.ob("C13.R5", ev, ev.node, f"{cls.name}: exactly one fitness-function invocation per evaluate",
                False if bad_count else (None if und and "interpretations" in und else True),
                bad_count[0] if bad_count else und, witness=bad_count[1] if bad_count else {"traces": ntr})
@@ -501,7 +516,76 @@ def rule_r5(ctx: Ctx) -> None:
         ctx.ob("C13.R3", ev, ev.node, f"{cls.name}: fitness_components are the raw values",
                False if bad_comp else (None if und else True), bad_comp[0] if bad_comp else und,
                witness=bad_comp[1] if bad_comp else {"traces": ntr})
-    ctx.floor("C13.R5", n, 6, "interpreted Problem.evaluate traces")
+        if multi:
+            ctx.ob("C13.R3", ev, ev.node, f"{cls.name}: the recorded components are a list of their own, not the object the fitness function returned",
+                   False if bad_alias else (None if und else True), bad_alias[0] if bad_alias else und,
+                   witness=bad_alias[1] if bad_alias else {"traces": ntr})
+    ctx.floor(alias_rid or "C13.R5", n, 6, "interpreted Problem.evaluate traces")
+
+
+def rule_shipped_state(ctx: Ctx) -> None:
+    """What crosses the process boundary.  The parallel evaluator pickles individuals; the worker computes the fitness from
+    individual.get_phenotype().  With default pickling the instance dictionary travels, cached program included.  A custom
+    __getstate__ / __setstate__ pair is interpreted on an individual with a cached program: if the program does not arrive, the worker
+    re-derives it from the genotype - the same program only where mapping is a pure function of the genotype (decided with C07's draw
+    provenance on this very tree)."""
+    from ..modelinterp import Budget, Interp, Obj, Sym, UNKNOWN
+    prog = ctx.prog
+    ind = prog.get_class(INDIVIDUAL)
+    for cls in [ind] + prog.subclasses(INDIVIDUAL):
+        hooks = {m: prog.lookup_method(cls, m) for m in ("__getstate__", "__setstate__", "__reduce__", "__reduce_ex__")}
+        hooks = {m: f for m, f in hooks.items() if f is not None and f.cls is not None}
+        anchor = hooks.get("__getstate__") or hooks.get("__reduce__") or hooks.get("__reduce_ex__") or prog.lookup_method(cls, "__init__")
+        desc = f"{cls.name}: the program cached on an individual reaches the worker that computes its fitness"
+        if not hooks:
+            ctx.ob("C13.R2", anchor, anchor.node if anchor else None, desc, True, "default pickling: the instance dictionary travels")
+            continue
+        if "__reduce__" in hooks or "__reduce_ex__" in hooks or "__getstate__" not in hooks:
+            ctx.ob("C13.R2", anchor, anchor.node, desc, None, "custom reduction protocol is not followed")
+            continue
+        fields = {"genotype": Sym("genes"), "representation": Sym("rep"), "phenotype": Sym("program"), "fitness_store": {}, "metadata": {}}
+        verdict: Optional[bool] = True
+        why = ""
+        try:
+            it = Interp(prog, cls, lambda *_: None, None, max_depth=4, max_traces=8)
+            runs = it.run(hooks["__getstate__"], {"self": Obj(cls.name, dict(fields), cls.fullname)})
+            for trace, rv, notes in runs:
+                if any(e.kind == "raise" for e in trace):
+                    continue
+                if notes or not isinstance(rv, dict):
+                    verdict, why = None, f"the pickled state is not followed ({rv!r})"
+                    break
+                got = dict(rv)
+                if "__setstate__" in hooks:
+                    fresh = Obj(cls.name, {}, cls.fullname)
+                    it2 = Interp(prog, cls, lambda *_: None, None, max_depth=4, max_traces=8)
+                    runs2 = it2.run(hooks["__setstate__"], {"self": fresh, hooks["__setstate__"].params[1]: dict(rv)})
+                    if len(runs2) != 1 or runs2[0][2] or any(e.kind == "raise" for e in runs2[0][0]):
+                        verdict, why = None, "__setstate__ is not followed"
+                        break
+                    after = it2.envs[0].get("self") if it2.envs else None
+                    if not isinstance(after, Obj):
+                        verdict, why = None, "__setstate__ is not followed"
+                        break
+                    got = dict(after.fields)
+                if got.get("genotype") != Sym("genes"):
+                    verdict, why = False, "the genotype does not reach the worker"
+                    break
+                if got.get("phenotype") != Sym("program"):
+                    if got.get("phenotype", None) not in (None, UNKNOWN) and "phenotype" in got:
+                        verdict, why = None, f"the unpickled individual's phenotype is {got.get('phenotype')!r}"
+                        break
+                    from .c07 import impure_mappings
+                    impure = impure_mappings(ctx)
+                    if impure:
+                        verdict = False
+                        why = (f"the pickled state of an individual leaves its cached program behind: the worker re-derives one from the genotype, and for "
+                               f"{', '.join(impure)} mapping draws from a source that is not the genotype - the fitness recorded by the parallel evaluator is that "
+                               f"of another program than the one the individual holds (and than the sequential evaluator uses)")
+                        break
+        except Budget:
+            verdict, why = None, "too many interpretations"
+        ctx.ob("C13.R2", anchor, anchor.node, desc, verdict, why)
 
 
 def run(ctx: Ctx) -> None:
@@ -514,6 +598,7 @@ def run(ctx: Ctx) -> None:
     rule_r3(ctx)
     rule_r4(ctx)
     rule_r5(ctx)
+    rule_shipped_state(ctx)
     ctx.assumptions += [
         "pathos ProcessingPool.map preserves input order (documented contract)",
         "user-supplied aggregate / best-individual callables do not call the fitness function themselves",
